@@ -517,6 +517,13 @@ impl<'p> World<'p> {
 					q.push_back(ChannelMonitorUpdateStatus::InProgress);
 				}
 			}
+		} else if i == 0 && self.frozen {
+			// its manager is not polled, so it cannot learn that the earlier updates completed; a
+			// synchronous Completed for the next update would break the Watch contract as the manager
+			// sees it (production panic "returned Completed while prior updates are still InProgress"):
+			// only complete what is pending, the mode stays
+			self.complete_updates(nodes, i);
+			return;
 		} else {
 			// a Watch must not report Completed while earlier updates are still in progress: finish
 			// everything pending first (what completing them triggers is still InProgress), then switch
